@@ -321,9 +321,10 @@ impl<const H: usize> Reader<H> {
         offset: u64,
         flushed_offset: u64,
     ) -> Result<Record<'_, H>, ReadError> {
-        let record_header_buf = self
-            .read_ahead_buf
-            .read(&self.file, offset, RECORD_HEAD_SIZE)?;
+        let epoch = self.flushed_offset.epoch();
+        let record_header_buf =
+            self.read_ahead_buf
+                .read(&self.file, offset, RECORD_HEAD_SIZE, flushed_offset, epoch)?;
 
         if is_truncation_marker(&record_header_buf[..RECORD_HEAD_SIZE]) {
             return Err(ReadError::TruncationMarker { offset });
@@ -353,9 +354,13 @@ impl<const H: usize> Reader<H> {
             return Err(ReadError::Crc32cMismatch { offset });
         }
 
-        let payload = self
-            .read_ahead_buf
-            .read(&self.file, payload_offset, payload_len)?;
+        let payload = self.read_ahead_buf.read(
+            &self.file,
+            payload_offset,
+            payload_len,
+            flushed_offset,
+            epoch,
+        )?;
 
         let header = &payload[..H];
         let compressed_data = &payload[H..];
@@ -529,6 +534,8 @@ impl<const H: usize> Reader<H> {
         {
             self.read_ahead_buf.invalidate();
         }
+        // ... and the caches of every other reader sharing this segment's flushed offset
+        self.flushed_offset.invalidate();
 
         // Sync to ensure durability
         self.file.sync_data()?;
@@ -576,6 +583,7 @@ struct ReadAheadBuf {
     offset: u64, // File offset of the buffer start
     pos: usize,  // Current read position in buffer
     valid_len: usize,
+    epoch: u64, // FlushedOffset epoch the buffer was filled in
 }
 
 impl ReadAheadBuf {
@@ -585,6 +593,7 @@ impl ReadAheadBuf {
             offset: 0,
             pos: 0,
             valid_len: 0,
+            epoch: 0,
         }
     }
 
@@ -604,17 +613,29 @@ impl ReadAheadBuf {
         self.valid_len = 0;
     }
 
-    fn read(&mut self, file: &File, offset: u64, length: usize) -> Result<&[u8], ReadError> {
+    fn read(
+        &mut self,
+        file: &File,
+        offset: u64,
+        length: usize,
+        flushed_offset: u64,
+        epoch: u64,
+    ) -> Result<&[u8], ReadError> {
         let end_offset = offset + length as u64;
 
-        // If offset is within the valid read-ahead range
-        if offset >= self.offset && end_offset <= (self.offset + self.valid_len as u64) {
+        // If offset is within the valid read-ahead range (and nothing below the flushed offset
+        // was rewritten since the buffer was filled)
+        if self.epoch == epoch
+            && offset >= self.offset
+            && end_offset <= (self.offset + self.valid_len as u64)
+        {
             let start = (offset - self.offset) as usize;
             return Ok(&self.buf[start..start + length]);
         }
 
         // Fill the read-ahead buffer for the requested offset & length
-        self.fill(file, offset, length)?;
+        self.fill(file, offset, length, flushed_offset)?;
+        self.epoch = epoch;
 
         // Ensure we now have enough valid data
         if offset < self.offset || end_offset > (self.offset + self.valid_len as u64) {
@@ -629,7 +650,13 @@ impl ReadAheadBuf {
         Ok(&self.buf[start..start + length])
     }
 
-    fn fill(&mut self, file: &File, offset: u64, mut length: usize) -> Result<(), ReadError> {
+    fn fill(
+        &mut self,
+        file: &File,
+        offset: u64,
+        mut length: usize,
+        flushed_offset: u64,
+    ) -> Result<(), ReadError> {
         let end_offset = offset + length as u64;
 
         // Set the new read-ahead offset aligned to 64KB
@@ -647,10 +674,16 @@ impl ReadAheadBuf {
             self.buf.shrink_to_fit();
         }
 
+        // Bytes beyond the flushed offset can still change (unflushed appends, preallocated
+        // zeros): never keep them, or they would be served after they became readable.
+        let readable = flushed_offset.saturating_sub(self.offset).min(required_size as u64) as usize;
+
         let mut total_read = 0;
-        while total_read < required_size {
-            let bytes_read =
-                file.read_at(&mut self.buf[total_read..], self.offset + total_read as u64)?;
+        while total_read < readable {
+            let bytes_read = file.read_at(
+                &mut self.buf[total_read..readable],
+                self.offset + total_read as u64,
+            )?;
             if bytes_read == 0 {
                 break; // EOF reached
             }
